@@ -19,7 +19,8 @@ EXPLANATION = (
     "(maxsplit, re-join, or an unpacking that raises); R7 each ODE-modifier entry gets fresh lists (no shared template object); R8 the render "
     "command installs Species' global tables (replacement, elements, pseudo-elements) before it constructs any Species; R9 every user setting "
     "BaseConfiguration.content writes is the stored field whole: the field itself, or a comprehension/helper that copies every entry (keys as "
-    "strings) -- no filter drops entries on the way into the file.")
+    "strings) -- no filter drops entries on the way into the file; R12 every configured value the render command reads is handed to the API "
+    "parameter it stands for (Network(..) keyword, Species class table, chemistrydata.update_*, TemplateLoader(..)).")
 ASSUMPTIONS = [
     "the general case of option values containing separator characters, quoting through cleo's string input, and equality of the rendered sources with the API path are not decided",
 ]
@@ -159,6 +160,158 @@ def check(ctx):
     from .c18 import render_reads_only
     render_reads_only(ctx, pkg, "R10")
     _r11(ctx, pkg)
+    _r12(ctx, pkg)
+
+
+# ------------------------------------------------------------------ R12  every configured value reaches the API parameter it stands for
+
+# configuration path -> the places the render command must hand it to, as (callee's last name, parameter name | position | "=")
+# -- the same places a user of the Python API hands the value to (Network(...), Species class tables, chemistrydata.update_*,
+# TemplateLoader(...)); this table IS the "equivalent network through the API" of the property
+SINKS = {
+    "chemistry.element.elements": [("set_known_elements", 0), ("Network", "elements")],
+    "chemistry.element.pseudo_elements": [("set_known_pseudoelements", 0), ("Network", "pseudo_elements")],
+    "chemistry.element.replacement": [("_replacement", "=")],
+    "chemistry.species.allowed": [("Network", "allowed_species")],
+    "chemistry.species.required": [("Network", "required_species")],
+    "chemistry.species.binding_energy": [("update_binding_energy", 0)],
+    "chemistry.species.photon_yield": [("update_photon_yield", 0)],
+    "chemistry.symbol.grain": [("Network", "species_kwargs")],
+    "chemistry.symbol.surface": [("Network", "species_kwargs")],
+    "chemistry.symbol.bulk": [("Network", "species_kwargs")],
+    "chemistry.network.files": [("Network", "filelist")],
+    "chemistry.network.formats": [("Network", "fileformats")],
+    "chemistry.thermal.heating": [("Network", "heating")],
+    "chemistry.thermal.cooling": [("Network", "cooling")],
+    "chemistry.shielding": [("Network", "shielding")],
+    "chemistry.rate_modifier": [("Network", "rate_modifier")],
+    "chemistry.ode_modifier": [("Network", "ode_modifier")],
+    "chemistry.grain.model": [("Network", "grain_model")],
+    "ODEsolver.solver": [("TemplateLoader", "solver")],
+    "ODEsolver.method": [("TemplateLoader", "method")],
+    "ODEsolver.device": [("TemplateLoader", "device")],
+    "general.name": [("render", 0)],
+}
+NEUTRAL_CALLS = {"Species", "int", "str", "float", "dict", "list", "set", "tuple", "items", "keys", "values", "get", "len", "print", "sorted", "copy", "join", "format",
+                 "strip", "isinstance", "bool", "enumerate", "zip", "Path", "joinpath", "spec_from_file_location", "module_from_spec", "exec_module", "patch_factory", "range"}
+
+
+def _r12(ctx, pkg):
+    rfn = pkg.method("RenderCommand", "handle")
+    root = _toml_root(rfn)
+    taint = {root: {""}}          # local -> set of configuration paths its value derives from
+
+    def paths_of(e):
+        """configuration paths an expression derives from"""
+        out = set()
+        # x["k"] chains on an aliasing local give the exact path
+        if isinstance(e, ast.Subscript) and isinstance(e.slice, ast.Constant) and isinstance(e.slice.value, str):
+            base = paths_of(e.value)
+            if base:
+                return {f"{b}.{e.slice.value}" if b else e.slice.value for b in base}
+        if isinstance(e, ast.Name):
+            return set(taint.get(e.id, ()))
+        for ch in ast.iter_child_nodes(e):
+            if isinstance(ch, ast.comprehension):
+                out |= paths_of(ch.iter)
+                for c in ch.ifs:
+                    out |= paths_of(c)
+            elif isinstance(ch, (ast.expr, ast.keyword)):
+                out |= paths_of(ch.value if isinstance(ch, ast.keyword) else ch)
+        return out
+
+    def leafs(ps):
+        return {p for p in ps if p in SINKS}
+
+    def callee_params(name):
+        """parameter names of the callee (class __init__ or function / method of that name in the package)"""
+        if name in pkg.classes and "__init__" in pkg.classes[name].methods:
+            return [a.arg for a in pkg.classes[name].methods["__init__"].args.args][1:]
+        for ci in pkg.classes.values():
+            if name in ci.methods:
+                fn = ci.methods[name]
+                decs = {ast.unparse(d) for d in fn.decorator_list}
+                a = [x.arg for x in fn.args.args]
+                return a if "staticmethod" in decs else a[1:]
+        for (f, n), fn in pkg.functions.items():
+            if n == name:
+                return [x.arg for x in fn.args.args]
+        return None
+
+    reached = {}       # path -> set of (callee, slot)
+    strays = {}        # path -> [unknown call it is handed to]
+    stmts = [n for n in ast.walk(rfn) if isinstance(n, (ast.Assign, ast.AugAssign, ast.Expr, ast.For, ast.With, ast.Return))]
+    stmts.sort(key=lambda n: (n.lineno, n.col_offset))
+    for n in stmts:
+        # sinks: calls anywhere inside the statement's own expressions
+        exprs = []
+        if isinstance(n, (ast.Assign, ast.AugAssign, ast.Expr, ast.Return)) and n.value is not None:
+            exprs.append(n.value)
+        if isinstance(n, ast.For):
+            exprs.append(n.iter)
+        if isinstance(n, ast.With):
+            exprs += [i.context_expr for i in n.items]
+        for e in exprs:
+            for c in ast.walk(e):
+                if not isinstance(c, ast.Call):
+                    continue
+                cname = c.func.attr if isinstance(c.func, ast.Attribute) else c.func.id if isinstance(c.func, ast.Name) else ""
+                params = callee_params(cname)
+                slots = []
+                for i, a in enumerate(c.args):
+                    if isinstance(a, ast.Starred):
+                        continue
+                    slots.append((i, params[i] if params and i < len(params) else None, a))
+                for k in c.keywords:
+                    if k.arg is not None:
+                        slots.append((params.index(k.arg) if params and k.arg in params else None, k.arg, k.value))
+                for pos, pname, a in slots:
+                    for p_ in leafs(paths_of(a)):
+                        reached.setdefault(p_, set()).update({(cname, pos), (cname, pname)})
+                        if cname not in NEUTRAL_CALLS and not any(cname == s_[0] for s_ in SINKS[p_]):
+                            strays.setdefault(p_, []).append(f"{cname}(..) line {c.lineno}")
+        if isinstance(n, ast.Assign):
+            ps = paths_of(n.value)
+            for t in n.targets:
+                if isinstance(t, ast.Name):
+                    if t.id != root:
+                        taint[t.id] = set(ps)
+                elif isinstance(t, (ast.Tuple, ast.List)):
+                    for e in t.elts:
+                        if isinstance(e, ast.Name):
+                            taint[e.id] = set(ps)
+                elif isinstance(t, ast.Attribute):
+                    for p_ in leafs(ps):
+                        reached.setdefault(p_, set()).add((t.attr, "="))
+                elif isinstance(t, ast.Subscript):
+                    b = t.value
+                    while isinstance(b, ast.Subscript):
+                        b = b.value
+                    if isinstance(b, ast.Name):
+                        taint.setdefault(b.id, set()).update(ps)
+        elif isinstance(n, ast.For):
+            ps = paths_of(n.iter)
+            for e in ast.walk(n.target):
+                if isinstance(e, ast.Name):
+                    taint[e.id] = set(ps)
+    n_ok = 0
+    for path, sinks in sorted(SINKS.items()):
+        got = reached.get(path, set())
+        for callee, slot in sinks:
+            key = f"{path} -> {callee}({slot})" if slot != "=" else f"{path} -> {callee} ="
+            if (callee, slot) in got:
+                n_ok += 1
+                ctx.ok("R12", key, (RENDER, rfn.lineno), "the configured value is handed to the API parameter it stands for")
+            elif path not in {p_ for ps in taint.values() for p_ in ps} and path not in reached and not any(q.startswith(path) or path.startswith(q + ".") for ps in taint.values() for q in ps if q):
+                ctx.unrec("R12", key, (RENDER, rfn.lineno), f"cannot follow `{path}` from the parsed configuration (the key is not read by subscripting a local of handle())")
+            elif strays.get(path):
+                ctx.unrec("R12", key, (RENDER, rfn.lineno), f"`{path}` is handed to {strays[path][0]}, which this rule does not follow")
+            else:
+                ctx.bad("R12", key, (RENDER, rfn.lineno),
+                        f"the configured `{path}` never reaches {callee}({slot if slot != '=' else 'class table'}): the command-line rendering uses something else than what the "
+                        "configuration file says, and differs from rendering the equivalent network through the API",
+                        expected=f"{callee}({slot}=<{path}>)", found="reaches: " + (", ".join(sorted(f"{c}({s})" for c, s in got if s is not None and not isinstance(s, int))) or "nothing"))
+    ctx.floor("R12", "configured values delivered", n_ok, 20, (RENDER, rfn.lineno))
 
 
 # ------------------------------------------------------------------ R11  list options keep every item, in order
@@ -612,6 +765,8 @@ def _r8(ctx, pkg):
 
 
 MUTANTS = [
+    {"name": "render-forgets-photon-yields", "file": RENDER, "old": "        update_photon_yield(yields)\n", "new": "", "rules": ["R12"]},
+    {"name": "render-swaps-heating-cooling", "file": RENDER, "old": "            heating=heating,\n            cooling=cooling,", "new": "            heating=cooling,\n            cooling=heating,", "rules": ["R12"]},
     {"name": "render-reindexes-half-indexed", "file": RENDER, "old": '        dupes, dupidx, first = net.find_duplicate_reaction(mode="short")', "new": '        if any(r.idxfromfile == -1 for r in net.reaction_list):\n            net.reindex()\n        dupes, dupidx, first = net.find_duplicate_reaction(mode="short")', "rules": ["R10"]},
     {"name": "formats-deduplicated", "file": INIT, "old": '        formats = [f.strip() for f in formats.split(",") if f]', "new": '        formats = list(dict.fromkeys(f.strip() for f in formats.split(",") if f))', "rules": ["R11"]},
     {"name": "writer-drops-falsy-modifiers", "file": CONF, "old": "            str(key): value for key, value in self._ratemodifier.items()\n", "new": "            str(key): value for key, value in self._ratemodifier.items() if value\n", "rules": ["R9"]},
